@@ -45,6 +45,42 @@ def in_fragment(tree, top=True):
     return True
 
 
+_NO_RENDERER = None
+
+
+def ops_without_renderer(gen):
+    """operator names without a `_name` renderer whose function-call spelling does not parse back to the operator
+    (measured once on the real format / parse)"""
+    global _NO_RENDERER
+    if _NO_RENDERER is None:
+        R = C.real()
+        have = {m[1:] for m in gen.get("fmt_methods", [])}
+        out = set()
+        for o in gen.get("ops", []):
+            n = o["name"]
+            if n in have or n == "cast":
+                continue
+            t = {"select": {"value": {n: "a9" if o["kind"] in ("pre", "suf") else ["a9", "b9"]}}}
+            f = R.format_raw(t)
+            r = R.parse_raw(f[1]) if f[0] == "ok" else ("err",)
+            if r[0] != "ok" or first_diff(t, r[1]) is not None:
+                out.add(n)
+        _NO_RENDERER = out
+    return _NO_RENDERER
+
+
+def names_in(t, acc=None):
+    acc = set() if acc is None else acc
+    if isinstance(t, dict):
+        for k, v in t.items():
+            acc.add(k)
+            names_in(v, acc)
+    elif isinstance(t, list):
+        for v in t:
+            names_in(v, acc)
+    return acc
+
+
 def known_c04_edges():
     """(outer, slot, inner) triples the formatter is already known to get wrong (C04's findings)"""
     edges = set()
@@ -117,8 +153,10 @@ def classify_diff(comps):
     last = comps[-1] if comps else ""
     prev = comps[-2] if len(comps) > 1 else ""
     names = set(last[5:].split(",")) if last.startswith("keys:") else set()
-    if names and names <= {"eq", "missing", "neq", "exists"} and (names & {"eq", "neq"}):
+    if names and names <= {"eq", "missing", "neq", "exists", "eq!", "ne!"} and (names & {"eq", "neq", "eq!", "ne!"}):
         return "null-comparison-refolded"          # {"eq": [x, NULL-node]} is written `x = NULL`, which folds to missing
+    if "collate" in comps:
+        return "collate:operand-is-not-a-name"       # `x COLLATE (expr)`: the formatter prints the operand's Python repr
     if (names & SETOPS) or (last == "len" and prev in SETOPS) or (names and names <= {"from", "orderby", "limit", "offset", "select", "where", "groupby", "having", "select_distinct"} | SETOPS and prev in SETOPS | {""} and (names & {"orderby", "limit", "offset", "from"})):
         return "setop:nesting-or-tail"
     if last == "len" and prev == "from":
@@ -174,6 +212,13 @@ def run(ctx, scale=1):
                         what = "format(parse(%r)) is not a fixed point of format∘parse" % f[1][:160]
         if key is None:
             continue
+        # an operator the parser knows only as infix / keyword syntax but for which the formatter has no renderer is
+        # written in function-call syntax (NOT_SIMILAR_TO(a, b), JSON_GET_TEXT(a, b), AT_TIME_ZONE(a, b) …): it comes
+        # back as a function call or not at all.  One finding per operator name.
+        if not key.startswith("format-raises"):
+            missing = sorted(ops_without_renderer(ctx.gen) & names_in(t))
+            if missing:
+                key = "expr:no-renderer:" + missing[0]
         # expression-level causes already listed under C04 are attributed to their formatter rule
         es = tree_edges(t, set()) & bad_edges
         if es and not key.startswith("format-raises"):
